@@ -12,7 +12,11 @@ from . import tmlib as L
 def eq(a, b):
     if a is None or b is None:
         return a is b
-    return z3.is_true(z3.simplify(lift(a) == lift(b)))
+    if z3.is_true(z3.simplify(lift(a) == lift(b))):
+        return True
+    sv = z3.Solver()
+    sv.add(lift(a) != lift(b))
+    return E.zcheck(sv, 3000) == z3.unsat
 
 
 def main():
